@@ -62,6 +62,12 @@ CLAIMS = {
              "only, with scalar total weight and the demand as aggregated. The equal weighted deviation of the converged "
              "solution is not decided.",
              "ast dependence / provenance (order-preserving) / sibling-agreement analysis"),
+    "C11": C("Only the bookkeeping of the three-phase power flow is claimed: element types mapped into the per-phase bus powers "
+             "equal those reported in res_bus_3ph; symmetric elements contribute a third per phase with scaling, in-service "
+             "mask and sign (-1 for *sgen) on the input and on the result side; phase letters / matrix rows / bus_pq columns "
+             "agree between writers and readers; Tabc.T012 = I by constant folding and the transforms use their own matrix. "
+             "Agreement with the symmetric power flow is not decided.",
+             "ast table / sibling agreement + constant folding"),
     "C12": C("Writer/reader table agreement: every (element, variable) ConstControl marks recyclable is read by a "
              "builder that the raised flag re-runs; every variable accepted for batch reading is provided by "
              "get_batch_outputs; stored Ybus/Sbus reused only when the corresponding flags are clear; a recycled run "
@@ -172,6 +178,5 @@ CLAIMS = {
 
 NOT_APPLICABLE = {
     "C06": "agreement of five iterative solvers and two back-ends is equality of numerical fixed points; no shape-of-code clause is a necessary condition of it (DESIGN.md section 5)",
-    "C11": "equality of sequence-frame and single-phase solutions and per-phase balance are numerical; no structural clause beyond those checked for C01/C02 (DESIGN.md section 5)",
     "C21": "round-trip equality of power-flow results through ppc/mpc is numerical; a column-coverage proxy would fire on legitimate converter scope changes (DESIGN.md section 5)",
 }
